@@ -125,6 +125,7 @@ type RunStats struct {
 	Tracks                                                                   []*trackState
 	MaxDepth                                                                 int
 	VioCounts                                                                map[string]int
+	InfeasibleMsgs                                                           []string
 }
 
 // cpuSem bounds the number of paths executing at once across all concurrently running explorers.
@@ -444,6 +445,9 @@ func (ex *Explorer) runPath(tt *TT, sol *Solver, fnInfos map[*ssa.Function]*fnIn
 		}
 	case "infeasible":
 		st.Infeasible++
+		if len(st.InfeasibleMsgs) < 3 {
+			st.InfeasibleMsgs = append(st.InfeasibleMsgs, msg+" @ "+in.where())
+		}
 	case "violation":
 		st.ViolPaths++
 	case "panic":
